@@ -113,6 +113,14 @@ CHECKS.update({
         design="3/C07"),
 })
 
+CHECKS.update({
+    "C09": dict(
+        technique="property-based testing: exhaustive per-code-point sweep of the naming functions (all 1.1M code points x 3 positions x 2 functions) plus Hypothesis near-duplicate name sets placed in real document scopes with a count-or-diagnostic oracle",
+        text="(i) every Unicode code point in leading, inner and trailing position through the attribute/module and class naming functions must yield a non-keyword identifier (6.7M calls in quick, x5 prefixes in thorough); (ii) sets of identifier-hostile names and their case/delimiter/prefix/NFKC variants are placed together as one model's properties, one operation's parameters, the component names, one enum's values, one tag's operationIds, an allOf composition's properties, an inline-vs-component class-name clash and the title: every file must compile, path components must be identifiers, and each scope must keep as many Python names as document names or issue a diagnostic.",
+        note="(i) calls two internal naming functions (also used by the pinned tests); nine narrow classes are listed findings identified by scope + name-shape flags",
+        design="3/C09"),
+})
+
 NOT_YET = {}
 
 def main():
